@@ -81,7 +81,21 @@ def _run_job(arg):
     except smt.SolverError as e:
         r = {'status': 'inconclusive', 'reason': 'solver: %s' % e}
     except Inconclusive as e:
-        r = {'status': 'inconclusive', 'reason': str(e)}
+        # a job that had already confirmed a violation natively keeps it: what could not be concluded afterwards (vacuity
+        # witness, translator validation on another input) does not un-confirm a replayed witness
+        r = None
+        tb = e.__traceback__
+        while tb is not None:
+            cand = tb.tb_frame.f_locals.get('res')
+            if isinstance(cand, dict) and any(f_.get('confirmed') for f_ in cand.get('failures', []) if isinstance(f_, dict)):
+                r = cand
+                break
+            tb = tb.tb_next
+        if r is None:
+            r = {'status': 'inconclusive', 'reason': str(e)}
+        else:
+            r['status'] = 'ok'
+            r.setdefault('notes', []).append('not concluded after the confirmed violation: %s' % e)
     except M.ConcretePanic as e:
         # a panic reached with an empty path condition: the code panics for every value of the symbolic inputs of this run.
         # The job may know how to replay that natively (-> confirmed violation); otherwise it is inconclusive.
